@@ -119,7 +119,7 @@ def handle (op : String) (args : List String) : Option String := do
           | _ => nan
         if op == "cmpg_jsa_normalized_range" then
           outS (fun zs => triplesC zs ((zs.zip (scalesOn R.points)).map fun p =>
-            p.2 / c + p.1.abs * sc / c)) (js.jsaNormalizedRange R)
+            p.2 / c + (p.1.re.abs + p.1.im.abs) * sc / c)) (js.jsaNormalizedRange R)
         else
           outS (fun vs => triplesR vs ((vs.zip (scalesOn R.points)).map fun p =>
             p.2 * p.2 / (c * c) + 2.0 * p.1 * sc / c)) (js.jsiNormalizedRange R)
